@@ -153,7 +153,25 @@ def handleClient (j : Json) : Except String Json := do
       | some (s, u, r) => ((outJson r).setObjVal! "start" (toJson s)).setObjVal! "used" (toJson u)
       | none => Json.null)])).toArray
 
+/-- `{"m":"await","conn":true,"stream":[[abs tick, event]…],"reqs":[cfg…],"gaps":[…]}`: consecutive
+requests on ONE connection (`ClientApi.connSeq`) -/
+def handleConn (j : Json) : Except String Json := do
+  let evs ← j.getObjValAs? (Array Json) "stream"
+  let stream ← evs.toList.mapM (fun e => do
+    let a ← (← e.getArrVal? 0).getNat?
+    let m ← getIn (← e.getArrVal? 1)
+    pure (a, m))
+  let rs ← j.getObjValAs? (Array Json) "reqs"
+  let gaps ← j.getObjValAs? (Array Nat) "gaps"
+  let reqs ← rs.toList.zipIdx.mapM (fun (r, i) => do
+    let (cfg, _) ← getCfgEv r
+    pure (cfg, gaps.getD i 0))
+  let outs := Verif.Model.ClientApi.connSeq Verif.Gen.Errors.isRetryableError 0 0 stream reqs
+  return Json.arr (outs.map (fun (s, u, o) =>
+    ((outJson o).setObjVal! "start" (toJson s)).setObjVal! "used" (toJson u))).toArray
+
 def handle (j : Json) : Except String Json := do
+  if (j.getObjVal? "conn").isOk then return ← handleConn j
   if (j.getObjVal? "client").isOk then return ← handleClient j
   if (j.getObjVal? "tokenOps").isOk then return ← handleToken j
   if (j.getObjVal? "seq").isOk then return ← handleSeq j
